@@ -216,3 +216,15 @@ Proof.
   - intros [H|[]]; auto.
   - destruct (Nat.eqb k k'); simpl; intros [H|H]; auto. apply IH in H as [H|H]; auto.
 Qed.
+
+Lemma NoDup_app_l {A} (a b : list A) : NoDup (a ++ b) -> NoDup a.
+Proof.
+  induction a as [|x tl IH]; simpl; intros H; [constructor|].
+  inversion H as [|? ? N ND]; subst. constructor; auto. intros K; apply N; apply in_or_app; auto.
+Qed.
+Lemma NoDup_app_r {A} (a b : list A) : NoDup (a ++ b) -> NoDup b.
+Proof. induction a as [|x tl IH]; simpl; intros H; auto. inversion H; auto. Qed.
+
+Lemma Forall2_mono {A B} (P Q : A -> B -> Prop) l1 l2 :
+  (forall a b, P a b -> Q a b) -> Forall2 P l1 l2 -> Forall2 Q l1 l2.
+Proof. intros H F; induction F; constructor; auto. Qed.
